@@ -257,6 +257,20 @@ class Harness(object):
         else:
             self.pending = [fail("reject", "addcolumn accepted a column of the wrong length", op="bad_addcolumn")]
 
+    def op_bad_setitem(self, name, extra):
+        # item assignment of a new title goes through the same length test, also on a table emptied of its rows
+        if name in self.cf.titles or not self.cf.titles:
+            return
+        try:
+            self.cf[name] = np.zeros(self.n + extra)
+        except Exception as e:
+            if "Wrong length" not in str(e):
+                raise
+        else:
+            self.pending = [fail("reject", "cf[%r] = array of %d values accepted on a table of %d rows" %
+                                 (name, self.n + extra, self.n), op="bad_setitem")]
+            self.model[name] = [0.0] * (self.n + extra)
+
     def op_bad_set_bigarray(self, extra):
         # a ragged list is refused (AssertionError "not rectangular"); the object must be what it was before
         if len(self.cf.titles) < 2:
@@ -570,6 +584,10 @@ def make_machine(tmpdir):
         @rule(extra=st.sampled_from([1, 3]))
         def bad_filter(self, extra):
             self.do("bad_filter", [extra])
+
+        @rule(name=st.sampled_from(NAMES + ["w"]), extra=st.sampled_from([1, 2]))
+        def bad_setitem(self, name, extra):
+            self.do("bad_setitem", [name, extra])
 
         @rule(extra=st.sampled_from([0, 1, 2]))
         def bad_set_bigarray(self, extra):
